@@ -51,13 +51,13 @@ CHECKS.update({
    text="Expression trees with minimal parentheses (precedence/associativity decide), hex/decimal literals, references across imports, all boolean spellings, strings with every escape and non-ASCII; parsed values, capacities and option values compared with an own evaluator; emitted literals read back in all three languages.",
    note="/ judged only for non-negative operands; C built with -std=c99 (trigraphs on); two recorded findings (Go typed int / C #define beyond 64 bits); Go strings decoded by my implementation of Go's lexical rules.", ref="2/C13"),
  "C18": dict(technique="differential monitor over repeated/interleaved compilations + cache-coherence monitor on every memoised AST method",
-   text="sha256 of every generated file across fresh processes (hash seeds 0/1/2/random), paths, cwd (also one that holds different files under every relative import path - decoys), output directories, -q, in-process repeats, shared parse, interleaving with another schema, compilation right after an earlier compilation chosen to leave state behind (trailing comments, renaming options, compilations failing half way); every memoised AST method is recomputed on each call and compared.",
+   text="sha256 of every generated file across fresh processes (hash seeds 0/1/2/random), paths, cwd (also one that holds different files under every relative import path - decoys), output directories, -q, in-process repeats, shared parse, interleaving with another schema, an output directory that already holds older files under the same names, -O -F name lists across hash seeds, compilation right after an earlier compilation chosen to leave state behind (trailing comments, renaming options, compilations failing half way); every memoised AST method is recomputed on each call and compared.",
    note="Only generated files are compared.", ref="2/C18"),
 })
 
 CHECKS.update({
  "C09": dict(technique="fuzzing monitor: token/character/byte mutation, random token strings, truncation, hostile shapes (depth, size, integers around the print limit); exception-class and per-input alarm watchdog; render of every accepted text; CLI traceback scan (+ atheris in thorough)",
-   text="Tens of thousands of mutated and hostile inputs per run go through the real parser; anything escaping that is not a ParserError/OSError, or an input on which the watched executor process twice burns 40 s of CPU, is a violation (hostile shapes include small DAGs whose tree expansion is exponential); byte-level damaged files (not UTF-8) go through parse(path) as main and as imported file; every accepted text is rendered in all languages and modes and any non-RendererError is a violation.",
+   text="Tens of thousands of mutated and hostile inputs per run go through the real parser; anything escaping that is not a ParserError/OSError, or an input on which the watched executor process twice burns 40 s of CPU, is a violation (hostile shapes include small DAGs whose tree expansion is exponential; import graphs on disk: cycles across directories, dot segments, symlinks, absolute paths); byte-level damaged files (not UTF-8) go through parse(path) as main and as imported file; every accepted text is rendered in all languages and modes and any non-RendererError is a violation.",
    note="Bounded by generator/mutator reach; thorough adds coverage-guided fuzzing; two recorded findings (recursion limit, alias size beyond the print limit).", ref="2/C09"),
  "C10": dict(technique="toolchain-as-oracle monitor: gcc -std=c99, link, g++, C vs C++ layout programs, Python ast/import/instantiate/execute, static Go checker",
    text="Composition-heavy generated schemas are rendered in every language/mode and handed to the real toolchains: per-file C99 compile, link with a caller of every API function (duplicate symbols), the same caller built by g++ through the header, sizeof/offsetof tables from real C and C++ programs, existence of #include targets, Python duplicate declarations/import/instantiation/method execution, and the static Go requirements via my Go parser.",
@@ -66,13 +66,13 @@ CHECKS.update({
    text="The exact sets of declared struct/typedef/function/macro names, exported symbols, Go declarations and Python public names are compared with a naming model written from the docs; with c.name_prefix the un-prefixed twin must give identical Go/Python output, struct members, layout and encoded bytes, and every prefixed C name must be the prefix in front of the very name the twin declares (also for digit-bearing type names, whose own spelling is compared normalised).",
    note="Names restricted to plain style-guide words; nested Go enum/alias names compared normalised.", ref="2/C15"),
  "C17": dict(technique="differential monitor over CLI invocations (-O/-F/--endian) with textual function extraction",
-   text="Real CLI invocations are compared with each other: refusals (extensible marker anywhere incl. imports, py -O, -F without -O) must be diagnostics with non-zero exit and no file; -O -F must define exactly the named messages' functions, textually identical to the unfiltered output (random subsets and, for container/contained message pairs, each one alone and both), with everything else unchanged; --endian may change only bodies and the detection preamble.",
+   text="Real CLI invocations are compared with each other: refusals (extensible marker anywhere incl. imports, py -O, -F without -O) must be diagnostics with non-zero exit and no file; -O -F must define exactly the named messages' functions, textually identical to the unfiltered output (random subsets, container/contained message pairs each alone and both, short names shared by several messages, and with --endian little/big against the unfiltered output of the same --endian), with everything else unchanged; --endian may change only bodies and the detection preamble.",
    note="Functions are delimited by the generator's own layout.", ref="2/C17"),
  "C19": dict(technique="structural monitor: parsed Go output vs schema model and vs the Python module's processor tree; Go helper bodies evaluated with Go integer semantics vs executed Python helpers",
    text="Per message: struct fields/types/tags, size constant and Size(), the resolved BpProcessor() tree (vs model and vs the tree the imported Python module builds) and the four accessor switch tables; the five pure Go runtime helpers are evaluated over their whole reachable domain against the executed Python helpers.",
    note="Go is parsed/evaluated by vlib/sut_gotext.py (trusted), never executed.", ref="2/C19"),
  "C20": dict(technique="position oracle from the printer (line/column of every name token) + lint stderr monitor + C08 catalogue for error lines + CLI -q/-c differential",
-   text="Conforming schemas must lint clean, each clear naming violation / zero-less enum must be warned about at its file:line (also when several offending definitions share one source line), every definition/reference position must equal the name token's position (also on the first line), parser errors must cite a line of the offending construct under heavy layout noise, output must be identical with and without -q and -c must fail exactly on error or warning.",
+   text="Conforming schemas must lint clean, each clear naming violation / zero-less enum must be warned about at its file:line (also when several offending definitions share one source line), -c must fail for 1, 255, 256, 257, 512 warnings alike, every definition/reference position must equal the name token's position (also on the first line), parser errors must cite a line of the offending construct under heavy layout noise, output must be identical with and without -q and -c must fail exactly on error or warning.",
    note="Only clear case violations are asserted to warn; one recorded finding (typedef deprecation warning not counted by -c).", ref="2/C20"),
 })
 
